@@ -41,7 +41,14 @@ var vfTokLens = []int{1, 3, 5, 6}
 
 // shapes whose text form is defined: no nil-vs-empty distinction in WKT, so skip typed nils
 func vfWktShapes() []vfShapeDef {
-	var out []vfShapeDef
+	// a bound with no order assumed between Min and Max (orb calls Min > Max "empty"; it still has four
+	// corners and an equivalent polygon); first in the list so that they are in the quick tier
+	out := []vfShapeDef{
+		{"Bound(any corners)", true, func(g *vfGen) orb.Geometry { return orb.Bound{Min: g.pt(), Max: g.pt()} }},
+		{"Collection[Point,Bound(any corners)]", true, func(g *vfGen) orb.Geometry {
+			return orb.Collection{g.pt(), orb.Bound{Min: g.pt(), Max: g.pt()}}
+		}},
+	}
 	for _, s := range vfShapes() {
 		switch s.name {
 		case "Collection[Point,MultiPoint(nil)]", "MultiLineString[[nil],[1]]", "MultiPolygon[nil]", "Polygon[[nil]]":
